@@ -63,7 +63,7 @@ def required(tier):
     b.update({f'amode:{k}': 100 for k in AMODES})
     b.update({f'asize:{k}': 100 for k in ASIZES})
     b.update({'array:partition-mode': 800, 'array:ragged-expected': 100, 'array:uniform-expected': 300,
-              'array:empty-expected': 10, 'array:nonsquare-tiles': 300})
+              'array:empty-expected': 10, 'array:nonsquare-tiles': 300, 'fil:output-dir-already-populated': 50})
     return {'buckets': b, 'counters': {'pieces_compared': 10000, 'frames_built': 1000, 'files_loaded': 500,
                                        'tiles_compared': 5000},
             'checks': 20000, 'nontrivial': 1000}
@@ -480,13 +480,24 @@ def run_file(c, R, stg):
             R.mark_nontrivial(n >= 1)
         elif kind == 'fil':
             od = pathlib.Path(outdir) if c['outdir_path'] else outdir
+            # every third case: the output directory already holds the pieces of an EARLIER, different split of the same
+            # file (other shift / fewer integrations); the second call must still write what was asked for
+            prepop = (c['_idx'] % 3 == 0)
+            if prepop:
+                R.bucket('fil:output-dir-already-populated')
+                kw0 = dict(f_shift=s + 1)
+                t_all = int(data.shape[0])
+                if (tch or t_all) > 1:
+                    kw0['tchans'] = (tch or t_all) - 1
+                with common.quiet():
+                    stg.split_fil(path, od, fch, **kw0)
             with common.quiet():
                 fns = stg.split_fil(path, od, fch, **kw)
             fns = [str(f) for f in fns]
             _check_count(R, ref, len(fns), 'split_fil')
             R.check(len(set(fns)) == len(fns), 'fil-names-not-distinct', n=len(fns), distinct=len(set(fns)))
             listing = sorted(os.listdir(outdir)) if os.path.isdir(outdir) else []
-            R.check(len(listing) == len(set(fns)) and all(os.path.isfile(f) for f in fns), 'fil-one-file-per-piece',
+            R.check((prepop or len(listing) == len(set(fns))) and all(os.path.isfile(f) for f in fns), 'fil-one-file-per-piece',
                     listed=len(listing), returned=len(fns))
             n = min(len(fns), ref.want)
             ok = True
